@@ -114,6 +114,76 @@ theorem send_ok {b b' : Bank} {src dst d n} (h : b.send src dst d n = some b') :
       exact Bank.send_self b b' src d n h a' d'
     · exact (Bank.send_deltas b b' src dst d n hne h).2.2
 
+/-! ### bank soundness: the balances of a denomination never add up to more than its supply -/
+
+/-- Σ balances ≤ supply, per denomination (`≤`: the chain has holders outside the model's universe) -/
+def Sound (b : Bank) : Prop := ∀ d, b.total d ≤ b.supplyOf d
+
+theorem bal_le_total (b : Bank) (a : Addr) (d : Denom) : b.balOf a d ≤ b.total d := by
+  unfold Bank.balOf AMap.getD Bank.total
+  induction b.bal with
+  | nil => simp [AMap.get?]
+  | cons hd t ih =>
+    obtain ⟨k, v⟩ := hd
+    simp only [AMap.get?, AMap.sumIf]
+    by_cases hk : k = (a, d)
+    · subst hk; simp
+    · simp only [hk, if_false]
+      split <;> omega
+
+theorem total_mint_self (b : Bank) (dst d n) : (b.mint dst d n).total d = b.total d + n := by
+  have h := Bank.total_setBal_same b dst d (b.balOf dst d + n)
+  have : (b.mint dst d n).total d = (b.setBal dst d (b.balOf dst d + n)).total d := rfl
+  omega
+
+theorem total_mint_other (b : Bank) (dst d n d') (h : d ≠ d') : (b.mint dst d n).total d' = b.total d' :=
+  Bank.total_setBal_other b dst d _ d' h
+
+theorem total_burn {b b' : Bank} {src d n} (h : b.burn src d n = some b') :
+    b'.total d + n = b.total d ∧ ∀ d', d ≠ d' → b'.total d' = b.total d' := by
+  unfold Bank.burn at h
+  split at h
+  · cases h
+  · rename_i hge
+    cases h
+    have h1 := Bank.total_setBal_same b src d (b.balOf src d - n)
+    have h2 := bal_le_total b src d
+    constructor
+    · have : ({ b.setBal src d (b.balOf src d - n) with supply := AMap.set b.supply d (b.supplyOf d - n) } : Bank).total d
+          = (b.setBal src d (b.balOf src d - n)).total d := rfl
+      omega
+    · intro d' hne
+      exact Bank.total_setBal_other b src d _ d' hne
+
+theorem sound_mint {b : Bank} (h : Sound b) (dst d n) : Sound (b.mint dst d n) := by
+  intro d'
+  by_cases hk : d = d'
+  · subst hk; rw [total_mint_self, supplyOf_mint_self]; have := h d; omega
+  · rw [total_mint_other _ _ _ _ _ hk, supplyOf_mint_other _ _ _ _ _ hk]; exact h d'
+
+theorem sound_burn {b b' : Bank} {src d n} (h : Sound b) (hb : b.burn src d n = some b') : Sound b' := by
+  obtain ⟨e1, e2⟩ := total_burn hb
+  obtain ⟨c1, _, c3, _, c5⟩ := burn_ok hb
+  intro d'
+  by_cases hk : d = d'
+  · subst hk; rw [c3]; have := h d; omega
+  · rw [e2 d' hk, c5 d' hk]; exact h d'
+
+theorem sound_send {b b' : Bank} {src dst d n} (h : Sound b) (hs : b.send src dst d n = some b') : Sound b' := by
+  intro d'
+  rw [Bank.send_total b b' src dst d n hs d']
+  have := Bank.send_supply b b' src dst d n hs
+  simp only [Bank.supplyOf, this]
+  exact h d'
+
+/-- with a sound bank an accepted burn lowers the supply by exactly the amount -/
+theorem burn_supply_exact {b b' : Bank} {src d n} (h : Sound b) (hb : b.burn src d n = some b') :
+    b'.supplyOf d + n = b.supplyOf d := by
+  obtain ⟨c1, _, c3, _, _⟩ := burn_ok hb
+  have := bal_le_total b src d
+  have := h d
+  omega
+
 /-! ### the fee handler -/
 
 theorem TM_ne_FC : TM ≠ FC := by decide
@@ -158,6 +228,22 @@ theorem feeMoves_ok {b b' : Bank} {payer d fee tax} (ht : tax ≤ fee)
   · rw [s3, s2, s1]
   · intro d' hne; rw [so3 d' hne, s2, s1]
 
+theorem sound_feeMoves {b b' : Bank} {payer d fee tax} (hs : Sound b)
+    (h : feeMoves b payer d fee tax = some b') : Sound b' ∧ b'.supplyOf d + (fee - tax) = b.supplyOf d := by
+  unfold feeMoves at h
+  split at h; · cases h
+  rename_i b1 h1
+  split at h; · cases h
+  rename_i b2 h2
+  have s1 := sound_send hs h1
+  have s2 := sound_send s1 h2
+  refine ⟨sound_burn s2 h, ?_⟩
+  have := burn_supply_exact s2 h
+  have e1 := Bank.send_supply b b1 payer TM d fee h1
+  have e2 := Bank.send_supply b1 b2 TM FC d tax h2
+  simp only [Bank.supplyOf, e2, e1] at this ⊢
+  exact this
+
 theorem FeeEff.sup_le {b b' : Bank} {payer d fee tax} (e : FeeEff b b' payer d fee tax) (d' : String) :
     b'.supplyOf d' ≤ b.supplyOf d' := by
   by_cases h : d = d'
@@ -191,6 +277,27 @@ theorem deductFee_ok {s s' : State} {payer fee} (h : deductFee s payer fee = .ok
   rename_i hn
   obtain ⟨tax, b', ht, _, he, hs⟩ := feeHandler_ok h
   refine ⟨d, n.toNat, tax, b', ?_, ht, he, hs⟩
+  congr 2; omega
+
+/-- a fee deduction keeps the bank sound and burns exactly `fee - tax` of the fee denomination -/
+theorem deductFee_sound {s s' : State} {payer fee} (hs : Sound s.bank) (h : deductFee s payer fee = .ok s') :
+    Sound s'.bank ∧ ∃ d, ∃ n tax : Nat, fee = .ok (d, (n : Int)) ∧ tax ≤ n ∧
+      s'.bank.supplyOf d + (n - tax) = s.bank.supplyOf d := by
+  unfold deductFee at h
+  split at h; · cases h
+  rename_i d n
+  split at h; · cases h
+  rename_i hn
+  unfold feeHandler at h
+  split at h; · cases h
+  rename_i tax htax
+  split at h; · cases h
+  rename_i hr
+  split at h; · cases h
+  rename_i b' hm
+  cases h
+  obtain ⟨s1, e1⟩ := sound_feeMoves hs hm
+  refine ⟨s1, d, n.toNat, tax.toNat, ?_, by omega, e1⟩
   congr 2; omega
 
 /-! ### inversion: what an accepted handler did -/
@@ -367,7 +474,7 @@ theorem deploy_ok {s s' : State} {authority name symbol minUnit : String} {scale
 
 theorem swapTo_ok {s s' : State} {sender receiver denom : String} {amount : Int}
     (h : stepSwapToErc20 s sender receiver denom amount = .ok s') :
-    0 < amount ∧ ∃ t b, tokenByMinUnit s denom = some t ∧ t.contract ≠ 0 ∧
+    0 < amount ∧ mintFaulty s.fault = false ∧ ∃ t b, tokenByMinUnit s denom = some t ∧ t.contract ≠ 0 ∧
       s.bank.burn sender denom amount.toNat = some b ∧
       s' = { s with bank := b,
                     evm := AMap.set s.evm (t.contract, receiver) (evmBal s t.contract receiver + amount.toNat) } := by
@@ -382,8 +489,9 @@ theorem swapTo_ok {s s' : State} {sender receiver denom : String} {amount : Int}
   split at h; · cases h
   rename_i b hb
   split at h; · cases h
+  rename_i hmf
   cases h
-  refine ⟨?_, t, b, ht, hc, hb, rfl⟩
+  refine ⟨?_, by simpa using hmf, t, b, ht, hc, hb, rfl⟩
   have hv' : (isAddr sender && isEth receiver && validDenom denom && decide (0 < amount)) = true := by
     cases hx : (isAddr sender && isEth receiver && validDenom denom && decide (0 < amount)) with
     | true => rfl
@@ -393,7 +501,8 @@ theorem swapTo_ok {s s' : State} {sender receiver denom : String} {amount : Int}
 
 theorem swapFrom_ok {s s' : State} {sender receiver denom : String} {amount : Int}
     (h : stepSwapFromErc20 s sender receiver denom amount = .ok s') :
-    0 < amount ∧ blocked s receiver = false ∧ ∃ t, tokenByMinUnit s denom = some t ∧ t.contract ≠ 0 ∧
+    0 < amount ∧ blocked s receiver = false ∧ burnFaulty s.fault = false ∧
+    ∃ t, tokenByMinUnit s denom = some t ∧ t.contract ≠ 0 ∧
       amount.toNat ≤ evmBal s t.contract sender ∧
       s' = { s with evm := AMap.set s.evm (t.contract, sender) (evmBal s t.contract sender - amount.toNat),
                     bank := s.bank.mint receiver denom amount.toNat } := by
@@ -409,10 +518,11 @@ theorem swapFrom_ok {s s' : State} {sender receiver denom : String} {amount : In
   split at h; · cases h
   rename_i hbal
   split at h; · cases h
+  rename_i hbf
   split at h; · cases h
   rename_i hbl
   cases h
-  refine ⟨?_, by simpa using hbl, t, ht, hc, by omega, rfl⟩
+  refine ⟨?_, by simpa using hbl, by simpa using hbf, t, ht, hc, by omega, rfl⟩
   have hv' : (isAddr sender && isAddr receiver && validDenom denom && decide (0 < amount)) = true := by
     cases hx : (isAddr sender && isAddr receiver && validDenom denom && decide (0 < amount)) with
     | true => rfl
